@@ -97,6 +97,7 @@ type vcOp struct {
 	nets, ports       int
 	parent            bool
 	seltext, namedprt int
+	fixedA            string // non-empty: label a has this concrete value instead of a free one
 }
 
 func VerifHarness_C04_ipsets() {
@@ -132,9 +133,16 @@ func VerifHarness_C04_ipsets() {
 		o.nets, o.ports, o.parent = digit(len(vcNets)), digit(4), digit(2) == 1
 		o.seltext, o.namedprt = digit(len(vcSelectors)), digit(3)
 	}
+	vcRun(ops, suppress)
+}
+
+// vcRun drives the index through the decoded operations and compares after every one.
+func vcRun(ops []vcOp, suppress bool) {
 	mkLabels := func(tag string, o *vcOp) map[string]string {
 		m := map[string]string{}
-		if o.hasA {
+		if o.hasA && o.fixedA != "" {
+			m["a"] = o.fixedA
+		} else if o.hasA {
 			m["a"] = vcVal(tag + ".a")
 		}
 		if o.hasB {
@@ -285,4 +293,47 @@ func vcCIDRText(m string) string {
 		return m + "/32"
 	}
 	return m
+}
+
+
+// VerifHarness_C04_inherit: the label-inheritance dimension exhaustively.  Two endpoints sharing an
+// address, each with or without its own label a and with or without the parent; the parent with or
+// without label a (value free); one IP set (selector on a, plain or named port) created before,
+// between or after them; then one follow-up (delete an endpoint, delete the parent's labels, detach
+// an endpoint from the parent, or nothing).
+func VerifHarness_C04_inherit() {
+	shape := verifChoose("shape", verifParam("COUNT", 1152)) * verifParam("STRIDE", 1)
+	digit := func(radix int) int {
+		d := shape % radix
+		shape /= radix
+		return d
+	}
+	ep := func(id int, nets int) vcOp {
+		o := vcOp{kind: 0, ep: id, hasA: digit(2) == 1, parent: digit(2) == 1, nets: nets, ports: 1}
+		o.fixedA = "x"
+		return o
+	}
+	e0, e1 := ep(0, 2), ep(1, 1)
+	par := vcOp{kind: 2, hasA: digit(2) == 1}
+	set := vcOp{kind: 4, set: 0, seltext: []int{0, 3, 2}[digit(3)], namedprt: digit(2)}
+	var ops []vcOp
+	switch digit(3) {
+	case 0:
+		ops = []vcOp{e0, e1, par, set}
+	case 1:
+		ops = []vcOp{set, e0, e1, par}
+	default:
+		ops = []vcOp{e0, par, set, e1}
+	}
+	switch digit(4) {
+	case 1:
+		ops = append(ops, vcOp{kind: 1, ep: 0})
+	case 2:
+		ops = append(ops, vcOp{kind: 3})
+	case 3:
+		d := e1
+		d.parent = false
+		ops = append(ops, d)
+	}
+	vcRun(ops, false)
 }
